@@ -290,6 +290,8 @@ class C16(Check):
                     self._rec(acc, {'p'}, 'direct', {'ud': {'sec': sec, 'usec': usec}})
             for lt in LOG_TYPES:
                 self._rec(acc, {'lt'}, 'direct', {'lt': lt})
+            self._rec(acc, {'bt', 'p'}, 'direct', {'bt': [{'iu': bytes([i % 256]) * 16, 'io': i} for i in range(300)]})
+            self._rec(acc, {'dm'}, 'direct', {'dm': {'pc': 40, 's': 2, 'seg': [{'lp': 9, 'p': {'w': i, 'p': i + 1}, 'a': {'c': 1, 'sc': i}} for i in range(40)]}})
             # string-index slot 0 is a slot like any other
             for k in STRING_KEYS:
                 self._rec(acc, {k}, 'direct', {k: 0})
